@@ -113,9 +113,17 @@ def evaluate(job):
         env2["SA_REPO"] = str(tmp)
         env2["SA_OUT"] = str(tmp / "evidence")
         flagged, undecided = [], []
-        procs = {c: subprocess.Popen([PY, "-B", "-m", "sa.run", c, "quick"], cwd=str(VERIF), env=env2, stdout=subprocess.PIPE, stderr=subprocess.STDOUT, text=True) for c in ALL}
-        for c, pr in procs.items():
-            pr.communicate(timeout=300)
+        start = lambda c: subprocess.Popen([PY, "-B", "-m", "sa.run", c, "quick"], cwd=str(VERIF), env=env2, stdout=subprocess.PIPE, stderr=subprocess.STDOUT, text=True)
+        first = start(ALL[0])       # computes and caches the normal forms of this mutant; the others read them
+        first.communicate(timeout=600)
+        done = {ALL[0]: first}
+        rest = ALL[1:]
+        for i in range(0, len(rest), 5):
+            procs = {c: start(c) for c in rest[i:i + 5]}
+            for c, pr in procs.items():
+                pr.communicate(timeout=600)
+            done.update(procs)
+        for c, pr in done.items():
             if pr.returncode == 1:
                 flagged.append(c)
             elif pr.returncode == 2:
